@@ -14,9 +14,6 @@ ITEMS = {
     # key: (fn suffix, crate)
     "desc/type_description": ("description::type_description", "scale_typegen_description"),
     "desc/ty_description": ("description::ty_description", "scale_typegen_description"),
-    "desc/type_def_type_description": ("description::type_def_type_description", "scale_typegen_description"),
-    "desc/tuple_type_description": ("description::tuple_type_description", "scale_typegen_description"),
-    "desc/variant_type_def_type_description": ("description::variant_type_def_type_description", "scale_typegen_description"),
     "desc/fields_type_description": ("description::fields_type_description", "scale_typegen_description"),
     "desc/type_name_with_type_params": ("description::type_name_with_type_params", "scale_typegen_description"),
     "desc/primitive_type_description": ("description::primitive_type_description", "scale_typegen_description"),
